@@ -12,6 +12,7 @@ import (
 	"time"
 
 	sgbucket "github.com/couchbase/sg-bucket"
+	"github.com/couchbaselabs/rosmar"
 	"pgregory.net/rapid"
 )
 
@@ -842,20 +843,22 @@ type cpRun struct {
 }
 
 func genCheckpointScript(rt *rapid.T) *Script {
-	sc := &Script{Config: Config{Disk: chance(rt, 30, "disk"), Handles: rapid.IntRange(1, 2).Draw(rt, "handles"), Colls: allCollNames[:1]}}
+	sc := &Script{Config: Config{Disk: chance(rt, 30, "disk"), Handles: rapid.IntRange(1, 2).Draw(rt, "handles"), Colls: allCollNames[:1]}, Extra: map[string]any{}}
+	// with a clock that stands still consecutive mutations get consecutive CAS values (cas, cas+1, ...)
+	sc.Extra["frozenClock"] = chance(rt, 50, "cp.frozen")
 	keys := []string{"a", "b", "c", "d"}
 	for _, k := range keys[:2] {
 		sc.Prefix = append(sc.Prefix, Op{K: "Set", Key: k, Body: []byte(`{"n":0}`)})
 	}
 	n := rapid.IntRange(6, 18).Draw(rt, "cp.steps")
 	lane := 0
-	feedOn, parkedW := false, ""
+	feedOn, parkedW, gatedGen := false, "", false
 	for i := 0; i < n; i++ {
-		choices := []string{"write", "write"}
+		choices := []string{"write", "write", "gateCb"}
 		if !feedOn {
-			choices = append(choices, "startFeed", "startFeed")
+			choices = append(choices, "startFeed", "startFeed", "midDeliveryStop")
 		} else {
-			choices = append(choices, "stopFeed", "gateCb")
+			choices = append(choices, "stopFeed", "stopFeed")
 		}
 		if parkedW == "" {
 			choices = append(choices, "writePark")
@@ -891,12 +894,26 @@ func genCheckpointScript(rt *rapid.T) *Script {
 			feedOn = false
 		case "gateCb":
 			sc.Steps = append(sc.Steps, SStep{Do: "gateCb"})
+			gatedGen = !gatedGen
+		case "midDeliveryStop":
+			// start a run whose callback is held at its first event, stop it there, then let go:
+			// the run delivers one event of its backfill and drops the rest
+			if !gatedGen {
+				sc.Steps = append(sc.Steps, SStep{Do: "gateCb"})
+			}
+			sc.Steps = append(sc.Steps, SStep{Do: "startFeed", Lane: fmt.Sprintf("F%d", i)}, SStep{Do: "stopFeed"}, SStep{Do: "gateCb"})
+			gatedGen = false
 		}
 	}
 	return sc
 }
 
 func runCheckpointScript(sc *Script) (devs []Deviation, sr *scriptRun, err error) {
+	if frozen, _ := sc.Extra["frozenClock"].(bool); frozen {
+		base := rosmar.VerifGlobalHLCHighest() + 0x100000
+		restore := rosmar.VerifSetGlobalClock(func() uint64 { return base })
+		defer restore()
+	}
 	sr, err = newScriptRun(sc, "C15")
 	if err != nil {
 		return nil, nil, err
@@ -928,7 +945,9 @@ func runCheckpointScript(sc *Script) (devs []Deviation, sr *scriptRun, err error
 			c.cond = sync.NewCond(&c.mu)
 			args := sgbucket.FeedArguments{ID: "cpfeed", Backfill: sgbucket.FeedResume, Dump: dump, Terminator: c.term, DoneChan: c.done, CheckpointPrefix: "cp"}
 			cb := func(ev sgbucket.FeedEvent) bool {
-				sr.s.onHook("feed.callback", w.Name) // can be held at a gate
+				if ev.Opcode == sgbucket.FeedOpMutation || ev.Opcode == sgbucket.FeedOpDeletion {
+					sr.s.onHook("feed.callback", w.Name) // can be held at a gate (document events only, not the backfill markers)
+				}
 				dmu.Lock()
 				if ev.Opcode == sgbucket.FeedOpMutation || ev.Opcode == sgbucket.FeedOpDeletion {
 					k := string(ev.Key)
